@@ -248,3 +248,14 @@ register(Contract(
     raises=[],
     modifies=[f"{FM}.$dict", "$llen", "$litems"],
 ))
+
+RTL = "self.__replace_token_list"
+_R["$fields"].types.update({"PluginScanContext._PluginScanContext__replace_token_list": "Optional[List[ReplaceTokensRecord]]"})
+register(Contract(
+    key=PSCK + "register_replace_tokens_request", properties=P,
+    ensures=[f"{RTL} is old({RTL}) and len({RTL}) == old(len({RTL})) + 1", f"forall(lambda k: {RTL}[k] is old({RTL}[k]), 0, old(len({RTL})))",
+             f"is_fresh({RTL}[len({RTL}) - 1]) and {RTL}[len({RTL}) - 1].plugin_id is plugin_id and {RTL}[len({RTL}) - 1].start_token is start_token and "
+             f"{RTL}[len({RTL}) - 1].end_token is end_token and {RTL}[len({RTL}) - 1].replacement_tokens is replacement_tokens"],
+    raises=[Raises("AssertionError", when=f"{RTL} is None")],
+    modifies=[f"{RTL}.$list"],
+))
